@@ -78,6 +78,20 @@ def explore(cfg, env0, funcs=None, on_node=None, max_states=20000, start=None, u
                         hash(env2[p])
                     except (A.NotClosed, TypeError, AttributeError, IndexError, KeyError, ValueError):
                         env2.pop(p, None)
+            if nd.kind == 'stmt' and isinstance(a, ast.Assign) and len(a.targets) == 1 and isinstance(a.targets[0], (ast.Tuple, ast.List)) \
+                    and all(isinstance(t_, ast.Name) for t_ in a.targets[0].elts):
+                # a, b = <closed sequence of that length>
+                try:
+                    v_ = A.ev(a.value, env, funcs)
+                    if isinstance(v_, list):
+                        v_ = tuple(v_)
+                    if isinstance(v_, (tuple, str)) and len(v_) == len(a.targets[0].elts):
+                        for t_, x_ in zip(a.targets[0].elts, v_):
+                            if t_.id not in pinned:
+                                hash(x_)
+                                env2[t_.id] = x_
+                except (A.NotClosed, TypeError, AttributeError, IndexError, KeyError, ValueError):
+                    pass
             if nd.kind == 'stmt' and isinstance(nd.stmt, ast.For) and a is nd.stmt.iter:
                 # entering a for loop: remember the iterable if it is closed (the loop head then iterates it)
                 try:
